@@ -83,11 +83,30 @@ fn write_docs(dir: &std::path::Path, tag: &str, docs: &[String]) -> Vec<std::pat
 
 /// `with_unseen = false` (the second fit): only the training corpus is transformed; the `ctest` / `ttest` fields then
 /// repeat the training matrices and are not used
-fn run_once(st: &Settings, train: &[String], test: &[String], scratch: &std::path::Path, with_unseen: bool) -> Result<Obs1, String> {
+/// `warm = true` (the second fit): the parameter objects have a HISTORY - they are first configured with another
+/// tokenizer regex and fitted once on the training corpus (whatever a fit caches inside the parameter object is now
+/// there), and only then re-configured with the case's settings through the documented setters and fitted again.
+/// The result must be that of a freshly built parameter object (the first fit), which the model decides.
+fn run_once(st: &Settings, train: &[String], test: &[String], scratch: &std::path::Path, with_unseen: bool, warm: bool) -> Result<Obs1, String> {
     let xtr = Array1::from(train.to_vec());
     let xte = Array1::from(test.to_vec());
-    let cv = configure!(CountVectorizer::params(), st);
-    let tv = configure!(tfidf_with_method(st.method), st);
+    let (cv, tv) = if warm {
+        const WARM_RE: &str = r"[^ ;]+";
+        const DEFAULT_RE: &str = r"\b\w\w+\b";
+        let c0 = CountVectorizer::params().tokenizer(Tokenizer::Regex(WARM_RE.to_string())).n_gram_range(1, 2);
+        c0.fit(&xtr).map_err(|e| format!("warm-up count fit: {}", e))?;
+        let t0 = tfidf_with_method(st.method).tokenizer(Tokenizer::Regex(WARM_RE.to_string())).n_gram_range(1, 2);
+        t0.fit(&xtr).map_err(|e| format!("warm-up tf-idf fit: {}", e))?;
+        let (mut c1, mut t1) = (configure!(c0, st), configure!(t0, st));
+        if let Tok::Default = &st.tok {
+            // the case asks for the default tokenizer: say so explicitly, the object was warmed up with another regex
+            c1 = c1.tokenizer(Tokenizer::Regex(DEFAULT_RE.to_string()));
+            t1 = t1.tokenizer(Tokenizer::Regex(DEFAULT_RE.to_string()));
+        }
+        (c1, t1)
+    } else {
+        (configure!(CountVectorizer::params(), st), configure!(tfidf_with_method(st.method), st))
+    };
     if st.via_files {
         let utf8 = encoding::all::UTF_8;
         let strict = encoding::DecoderTrap::Strict;
@@ -143,8 +162,8 @@ fn run_once(st: &Settings, train: &[String], test: &[String], scratch: &std::pat
 fn run_impl(st: &Settings, train: &[String], test: &[String], scratch: &std::path::Path) -> Result<Obs, String> {
     let (st, train, test, scratch) = (st.clone(), train.to_vec(), test.to_vec(), scratch.to_path_buf());
     match guarded(move || -> Result<Obs, String> {
-        let a = run_once(&st, &train, &test, &scratch, true)?;
-        let b = run_once(&st, &train, &test, &scratch, false).map_err(|e| format!("second fit: {}", e))?;
+        let a = run_once(&st, &train, &test, &scratch, true, false)?;
+        let b = run_once(&st, &train, &test, &scratch, false, true).map_err(|e| format!("second fit (re-configured parameter object): {}", e))?;
         Ok(Obs { a, b })
     }) {
         Ok(r) => r,
